@@ -165,8 +165,8 @@ namespace Canopy.Smt
 open Trie
 
 /-- what an `accept` of the repaired verifier means, piece by piece -/
-theorem verifyFixedF_accept {H : Bytes → Bytes} {H4 : Bytes → Bytes → Bytes → Bytes → Bytes} {n : Nat} {uk value : Bytes} {m : Bool} {root : Bytes} {proof : List PNode}
-    (h : verifyFixedF H H4 n uk value m root proof = .accept) :
+theorem verifyFixedF_accept {strict : Bool} {H : Bytes → Bytes} {H4 : Bytes → Bytes → Bytes → Bytes → Bytes} {n : Nat} {uk value : Bytes} {m : Bool} {root : Bytes} {proof : List PNode}
+    (h : verifyFixedF strict H H4 n uk value m root proof = .accept) :
     ∃ p0 p1 rest, proof = p0 :: p1 :: rest ∧ (∀ p ∈ proof, validNodeKey n p.key = true) ∧
       foldFixed H4 (decodeKey p0.key) p0.value (p1 :: rest) = some root ∧
       branchBits (decodeKey p0.key) (p1 :: rest) ≤ (gcp (keyOfBytes n (H uk)) (decodeKey p0.key)).length ∧
@@ -180,9 +180,12 @@ theorem verifyFixedF_accept {H : Bytes → Bytes} {H4 : Bytes → Bytes → Byte
   | p0 :: p1 :: rest, h =>
     refine ⟨p0, p1, rest, rfl, ?_⟩
     simp only at h
-    by_cases hv : ((p0 :: p1 :: rest).all fun p => validNodeKey n p.key) = true
+    by_cases hv : ((p0 :: p1 :: rest).all fun p => nodeOk strict n p) = true
     · simp only [hv, Bool.not_true, Bool.false_eq_true, if_false] at h
-      refine ⟨by simpa using hv, ?_⟩
+      refine ⟨fun p hp => by
+        have := (List.all_eq_true.mp hv) p hp
+        simp only [nodeOk, Bool.and_eq_true] at this
+        exact this.1, ?_⟩
       split at h
       · cases h
       · cases hf : foldFixed H4 (decodeKey p0.key) p0.value (p1 :: rest) with
@@ -221,13 +224,13 @@ theorem verifyFixedF_accept {H : Bytes → Bytes} {H4 : Bytes → Bytes → Byte
 statement about a key against the root of a canonical tree holding `S`, the statement is true of `S` — an accepted
 membership proof means the key holds that value, an accepted non-membership proof means the key is absent. No
 assumption on where the proof comes from. -/
-theorem verifyFixed_sound (H : Bytes → Bytes) (H4 : Bytes → Bytes → Bytes → Bytes → Bytes) (hH : H4Inj H4) {n : Nat} (hn : 0 < n) {t : Trie} {S : KMap}
+theorem verifyFixed_sound (strict : Bool) (H : Bytes → Bytes) (H4 : Bytes → Bytes → Bytes → Bytes → Bytes) (hH : H4Inj H4) {n : Nat} (hn : 0 < n) {t : Trie} {S : KMap}
     (h : t.Rep n S) (hs : S.HasSentinels n) (userKey value : Bytes) (membership : Bool) (proof : List PNode)
-    (hacc : verifyFixed H H4 n userKey value membership (t.value H4) proof = .accept) :
+    (hacc : verifyFixed strict H H4 n userKey value membership (t.value H4) proof = .accept) :
     if membership then S (keyOfBytes n (H userKey)) = some (H value) else S (keyOfBytes n (H userKey)) = none := by
-  have hF : verifyFixedF H H4 n userKey value membership (t.value H4) proof = .accept := by
+  have hF : verifyFixedF strict H H4 n userKey value membership (t.value H4) proof = .accept := by
     unfold verifyFixed at hacc
-    cases hv : verifyFixedF H H4 n userKey value membership (t.value H4) proof <;> simp [hv, FVerdict.toVerdict] at hacc
+    cases hv : verifyFixedF strict H H4 n userKey value membership (t.value H4) proof <;> simp [hv, FVerdict.toVerdict] at hacc
     rfl
   obtain ⟨p0, p1, rest, rfl, hvalid, hfold, hbranch, hdecision⟩ := verifyFixedF_accept hF
   have hk : (keyOfBytes n (H userKey)).length = n := keyOfBytes_length n _
